@@ -219,12 +219,9 @@ where
     T: FromStr + crate::robotics::FromF64,
     T: num_traits::Float,
 {
-    if angle_conversions {
-        return crate::robotics::parse_yaml12_float_angle_converting(s, location, tag);
-    }
     let t = s.trim();
     let lower = t.to_ascii_lowercase();
-    match lower.as_str() {
+    let plain = match lower.as_str() {
         ".nan" | "+.nan" | "-.nan" => Ok(T::nan()),
         ".inf" | "+.inf" => Ok(T::infinity()),
         "-.inf" => Ok(T::neg_infinity()),
@@ -232,7 +229,17 @@ where
             ty: "floating point",
             location,
         }),
+    };
+    if angle_conversions {
+        // An ordinary float literal keeps exactly the value it has without the extension
+        // (the evaluator works in f64, which would round an f32 literal twice). Only a
+        // degrees tag gives a bare number another meaning.
+        if plain.is_ok() && !matches!(tag, SfTag::Degrees) {
+            return plain;
+        }
+        return crate::robotics::parse_yaml12_float_angle_converting(s, location, tag);
     }
+    plain
 }
 
 #[cfg(not(feature = "robotics"))]
